@@ -18,6 +18,7 @@ def run(prog, chk):
     insert_table(prog, chk)
     reset_table(prog, chk)
     prepend_table(prog, chk)
+    close_table(prog, chk)
     _run(prog, chk)
 
 
@@ -408,3 +409,94 @@ def prepend_table(prog, chk):
             want = "the chain aggregated from level %d, %s, chain prepended" % (start, "level %d removed from the aggregator's first link" % root if root else "nothing to remove")
         chk.ob("C16.prepend", inst, ok, "expected %s; source: aggregate %s, removed %s, prepended %s, status %s"
                % (want, seen["agg"], seen["sub"], seen["app"], q.ret), loc=fn.loc(), fn=fn, nontrivial=start > 0)
+
+
+def close_table(prog, chk):
+    """KSI_TreeBuilder_close over (which slots of the forest are occupied) x (which join fails, if any): on success the root is the
+    right-to-left merge of the occupied slots and the forest is empty; on failure nothing is lost - every tree that was in the forest
+    is still reachable from the builder (a slot, or inside a tree in a slot), nothing of it has been released, and the builder is
+    not marked closed, so that the call can be repeated."""
+    import itertools
+    chk.rule("C16.close", "close: the root merges the whole forest; a failing join loses no tree and leaves the builder open "
+                          "(decision table over slot occupancy and join outcomes)", floor=20)
+    fc = prog.fn("KSI_TreeBuilder_close", "tree_builder.c")
+    bp = fc.params[0]["n"]
+    import re as _re
+    NSLOT = None
+    for f in (prog.records.get("KSI_TreeBuilder_st") or {}).get("fields", []):
+        m = _re.search(r"\[(\d+)\]", f.get("t", "")) if f["n"] == "stack" else None
+        if m:
+            NSLOT = int(m.group(1))
+    if NSLOT is None:
+        raise AnalysisBroken("KSI_TreeBuilder_st: size of the slot array not found")
+    ERRJ = 0x200
+    for occ in itertools.product((0, 1), repeat=4):
+        njoin = max(0, sum(occ) - 1)
+        for fail_at in [None] + list(range(njoin)):
+            inputs = {bp: Ptr("B"), "B->ctx": Ptr("ctx"), "B->hsr": Ptr("hsr"), "B->rootNode": 0}
+            nslots = NSLOT or 64
+            for s_ in range(nslots + 1):
+                inputs["B->stack[%d]" % s_] = Ptr("S%d" % s_) if (s_ < 4 and occ[s_]) else 0
+            joins = []
+            children = {}
+
+            def join(I, p, node, args, fail_at=fail_at):
+                k = len(joins)
+                joins.append((args[2], args[3]))
+                if fail_at is not None and k == fail_at:
+                    return ERRJ
+                out = strip(node["a"][4])
+                nm = "J%d" % k
+                I.write(p, I.canon(p, I.key_of(p, out["e"])) if isinstance(out, dict) and out.get("k") == "un" else "tmp", Ptr(nm))
+                children[nm] = [a.what for a in (args[2], args[3]) if isinstance(a, Ptr)]
+                return 0
+            freed = []
+            ov = {"KSI_TreeNode_join": join, "KSI_TreeNode_free": lambda I, p, n, a, freed=freed: (freed.append(a[0]), TOP)[1]}
+            I = Interp(fc, inputs=inputs, call_model=succeed_model(prog, ov), on_unknown="stop", prog=prog, loop_bound=nslots + 4)
+            paths = I.run()
+            chk.paths += len(paths)
+            inst = "close[slots %s,%s]" % ("".join("x" if o else "-" for o in occ), "all joins succeed" if fail_at is None else "join %d fails" % (fail_at + 1))
+            if len(paths) != 1 or paths[0].undetermined:
+                raise AnalysisBroken("KSI_TreeBuilder_close: evaluation not determined for %s: %s" % (inst, [q.undetermined[:1] for q in paths]))
+            q = paths[0]
+
+            def leaves(name, seen=None):
+                if name in children:
+                    out = set()
+                    for c in children[name]:
+                        out |= leaves(c)
+                    return out
+                return {name}
+            final_slots = {}
+            for s_ in range(nslots):
+                st = q.stores("B->stack[%d]" % s_)
+                v = st[-1][2] if st else inputs["B->stack[%d]" % s_]
+                if isinstance(v, Ptr):
+                    final_slots[s_] = v.what
+            rst = q.stores("B->rootNode")
+            root = rst[-1][2] if rst else 0
+            before = {"S%d" % s_ for s_ in range(4) if occ[s_]}
+            released = {f.what for f in freed if isinstance(f, Ptr)}
+            if not before:
+                ok = q.ret not in (0, TOP) and root == 0
+                what = "an empty forest cannot be closed: status %s, root %s" % (q.ret, root)
+            elif fail_at is None:
+                # merge order: slots in ascending order, the tree built so far is the right operand
+                order = [s_ for s_ in range(4) if occ[s_]]
+                wantj = []
+                acc = "S%d" % order[0]
+                for k, s_ in enumerate(order[1:]):
+                    wantj.append((Ptr("S%d" % s_), Ptr(acc)))
+                    acc = "J%d" % k
+                ok = q.ret == 0 and isinstance(root, Ptr) and leaves(root.what) == before and not final_slots and joins == wantj and not (released & (before | set(children)))
+                what = "expected KSI_OK, root = merge of %s (higher slot left, merged part right), forest emptied; source: status %s, root %s covering %s, joins %s, slots left %s, released %s" % (
+                    sorted(before), q.ret, root, sorted(leaves(root.what)) if isinstance(root, Ptr) else None, joins, final_slots, sorted(released))
+            else:
+                kept = set()
+                for v in final_slots.values():
+                    kept |= leaves(v)
+                lost = before - kept
+                ok = q.ret not in (0, TOP) and root == 0 and not lost and not (released & (before | set(children)))
+                what = "expected an error, the builder still open and every tree of %s still in the forest; source: status %s, root %s, slots %s (covering %s), lost %s, released %s" % (
+                    sorted(before), hex(q.ret) if isinstance(q.ret, int) else q.ret, root, final_slots, sorted(kept), sorted(lost), sorted(released))
+            chk.ob("C16.close", inst, ok, what, loc=fc.loc(), fn=fc, nontrivial=fail_at is not None)
